@@ -43,7 +43,7 @@ class C09(MonitorCheck):
                    'level, unknown class) are counted, not judged']
     PROBES = ('find_subtypes', 'find_supertypes', 'find_irrelevant_type', 'irrelevant_none',
               'parameterized_query', 'tvar_query', 'postrun_searches',
-              'nested_small_pool_queries')
+              'nested_small_pool_queries', 'irrelevant_related_impl_agrees')
     ROUNDS = (0, 1, 1)
     tiers = {'quick': {'runs': 260, 'wall_s': 70, 'run_timeout_s': 200},
              'thorough': {'runs': 4000, 'wall_s': 1100, 'run_timeout_s': 900}}
@@ -150,7 +150,7 @@ class C09(MonitorCheck):
             if sig not in v:
                 v[sig] = {'rule': rule, 'sig': sig, 'detail': '%s [lang=%s]' % (detail, lang)}
 
-        for kind, q, res, inc, conc, ignv, caller in rec.searches:
+        for kind, q, res, inc, conc, ignv, caller, *more in rec.searches:
             name = {'sub': 'find_subtypes', 'super': 'find_supertypes',
                     'irrelevant': 'find_irrelevant_type'}[kind]
             probes[name] = probes.get(name, 0) + 1
@@ -254,6 +254,18 @@ class C09(MonitorCheck):
                         rkind += '~primitive'
                     sig = 'irrelevant-is-related|%s|%s|%s' % (
                         name, 'subtype' if a else 'supertype', rkind)
+                    chained = q[0] == 'V' and q[3] is not None and q[3][0] == 'V'
+                    if more and more[0] is True and rkind in ('class', 'builtin') \
+                            and not chained:
+                        # a plain class / non-primitive built-in that the implementation's own
+                        # is_subtype relates to the query on the live objects: neither the
+                        # stale-object class of C09-K1 nor the boxing class of C09-K2, so it is
+                        # kept out of their signatures (generic instantiations and variables
+                        # bounded by variables keep the old signature: the baseline produces
+                        # them with the implementation agreeing, which is what K1 records)
+                        sig += '|impl-agrees'
+                        probes['irrelevant_related_impl_agrees'] = probes.get(
+                            'irrelevant_related_impl_agrees', 0) + 1
                     if sig not in v:
                         v[sig] = {'rule': 'irrelevant-is-related', 'sig': sig,
                                   'detail': 'find_irrelevant_type(%s) returned %s, which is a %s '
